@@ -335,7 +335,8 @@ class ChangeBlock(object):
             raise ChangelogCreateError("Changes not specified")
         for change in self.changes():
             block += change + "\n"
-        if not self._no_trailer:
+        if (not self._no_trailer or self.author is not None
+                or self.date is not None):
             block += " --"
             if self.author is not None:
                 block += " " + self.author
